@@ -111,11 +111,15 @@ def ckObs (progs : List String) (obs : String) : Option (String × String) :=
         let parts := c.splitOn "="
         (t, k, (parts.headD "").splitOn "+", parts.getD 1 ""))
   let allEvs := calls.flatMap fun (_, _, evs, _) => evs
-  let casOk := calls.filter fun (_, k, evs, _) => k == "s" && evs.any fun e => (evBody e).startsWith "C." && ((evBody e).splitOn ".").getD 3 "" == "ok0"
+  -- (the numeric values of the states are the implementation's business: only ok / er matters here)
+  let casOk := calls.filter fun (_, k, evs, _) => k == "s" && evs.any fun e => (evBody e).startsWith "C." && (((evBody e).splitOn ".").getD 3 "").startsWith "ok"
   if casOk.length > 1 then some ("C18", "more than one set won") else
   if calls.any (fun (_, _, _, r) => r == "panic") || obs.contains "panic" then some ("C20", "a holder call panicked") else
   let winner := casOk.head?.map (·.1)
-  let storeSeq : Option Nat := (allEvs.find? fun e => (evBody e).startsWith "S.2").map evSeq
+  let winnerEvs : List String := (casOk.head?.map fun (_, _, evs, _) => evs).getD []
+  let storeSeq : Option Nat := (winnerEvs.find? fun e => (evBody e).startsWith "S.").map evSeq
+  let anySet := calls.any fun (_, k, _, _) => k == "s"
+  if anySet && casOk.isEmpty then some ("C18", "sets were made on a fresh holder but none of them won") else
   -- a set publishes COMPLETE only after the cell write
   let badOrder := casOk.any fun (_, _, evs, _) =>
     match evs.findIdx? (fun e => evBody e == "G"), evs.findIdx? (fun e => (evBody e).startsWith "S.") with
